@@ -33,7 +33,7 @@ RULE = (
     "or exactly one condition short of it."
 )
 ASSUMPTIONS = ["bases containing the length-1 permutation are outside the domain (shape helpers assert non-empty remainders), see DESIGN §3"]
-REQUIRED = ["calls.find_strategies", "calls.InsertionEncodingStrategy.applies", "calls.FinitelyManySimplesStrategy.applies", "core.applies_true",
+REQUIRED = ["history.class_enumerated_first", "env.shards_with_other_hashseed", "calls.find_strategies", "calls.InsertionEncodingStrategy.applies", "calls.FinitelyManySimplesStrategy.applies", "core.applies_true",
             "core.applies_false", "symmetry.checked", "quick_vs_slow.checked", "near_miss.bases", "error_path.failed_calls"] + [f"calls.{c.__name__}.applies" for c in CS.core_strategies]
 MIN_NONTRIVIAL = 60
 CTX = None
@@ -210,6 +210,16 @@ def chk_basis(ctx, basis, slow):
                 ES.find_strategies(bad, False)
             except Exception:
                 ctx.count("error_path.failed_calls")
+    if ctx.rng.random() < 0.3:
+        # history with another public feature: the (process-wide, shared) class object of this basis is enumerated first
+        from permuta import Av
+
+        try:
+            av = Av(list(B))
+            av.count(ctx.rng.choice([5, 6, 7])), Perm(tuple(range(6))) in av
+            ctx.count("history.class_enumerated_first")
+        except ValueError:
+            pass
     fast = names(ES.find_strategies(B, False))
     ctx.ev()
     want_fast = sorted(n for n in SPEC if core_applies(n, ts)) + (["InsertionEncodingStrategy"] if (K.insenc_rightmost(ts) or K.insenc_topmost(ts)) else [])
@@ -262,7 +272,11 @@ def shaped_pool():
 
 def plan(tier, seed):
     n = 960 if tier == "quick" else 6000
-    return [{"name": f"bases-{i}", "kind": "bases", "count": n // 16, "maxlen": 5 if tier == "quick" else 6} for i in range(16)]
+    specs = [{"name": f"bases-{i}", "kind": "bases", "count": n // 16, "maxlen": 5 if tier == "quick" else 6} for i in range(16)]
+    # the same kind of work in interpreters started with other string-hash seeds (iteration order of sets of names / strings)
+    specs += [{"name": f"bases-hashseed-{j}", "kind": "bases", "count": n // 48, "maxlen": 5, "env": {"PYTHONHASHSEED": str(1 + j + 13 * seed)}}
+              for j in range(8 if tier == "quick" else 16)]
+    return specs
 
 
 def run(ctx, spec):
